@@ -7,7 +7,7 @@ appended), skips empty blocks (`x.size != 0`) and executes `out[index] = x`.
 
 The environment (NumPy basic-index assignment) is modelled explicitly: `indexSel` = the target
 positions a basic index names per target axis (integers with Python wrap-around, `IndexError`
-out of range / too many indices), `bcastOkRev` = NumPy's broadcast check of the block against
+out of range / too many indices), `bcastOk` = NumPy's broadcast check of the block against
 the selection (`ValueError`), `locate` = which element of the selection a target position is.
 Targets / sources are total functions multi-index → value (`Pos → Int`); only positions inside
 the shapes are ever looked at.  A block write is a partial function `Pos → Option Int`
@@ -87,18 +87,25 @@ def locate : List AxSel → Pos → Option (List Int)
     | _, _ => none
   | _, _ => none
 
-/-- NumPy's broadcast check for `out[index] = x`, shapes REVERSED (trailing axes aligned):
-every axis of `x` equals the selection's or is 1; surplus leading axes of `x` must be 1. -/
-def bcastOkRev : List Int → List Int → Bool
-  | [], _ => true
-  | x :: xs, [] => x == 1 && bcastOkRev xs []
-  | x :: xs, s :: ss => (x == s || x == 1) && bcastOkRev xs ss
+/-- aligned part of NumPy's broadcast check: every axis of `x` equals the selection's or is 1 -/
+def okZip : List Int → List Int → Bool
+  | x :: xs, s :: ss => (x == s || x == 1) && okZip xs ss
+  | _, _ => true
 
-/-- the element of `x` that lands at selection multi-index `j` (both REVERSED) -/
-def bcastIdxRev : List Int → List Int → List Int
-  | [], _ => []
-  | _ :: xs, [] => 0 :: bcastIdxRev xs []
-  | x :: xs, j :: js => (if x = 1 then 0 else j) :: bcastIdxRev xs js
+/-- NumPy's broadcast check for `out[index] = x` (`xs` = shape of `x`, `ss` = shape of the selection):
+trailing axes are aligned; surplus LEADING axes of `x` must be 1; missing leading axes are broadcast. -/
+def bcastOk (xs ss : List Int) : Bool :=
+  let k := xs.length - ss.length
+  (xs.take k).all (· == 1) && okZip (xs.drop k) (ss.drop (ss.length - xs.length))
+
+def idxZip : List Int → List Int → List Int
+  | x :: xs, j :: js => (if x = 1 then 0 else j) :: idxZip xs js
+  | _, _ => []
+
+/-- the element of `x` (shape `xs`) that lands at selection multi-index `j` -/
+def bcastIdx (xs : List Int) (j : List Int) : List Int :=
+  let k := xs.length - j.length
+  List.replicate k 0 ++ idxZip (xs.drop k) (j.drop (j.length - xs.length))
 
 def addPos : List Int → List Int → List Int
   | a :: as, b :: bs => (a + b) :: addPos as bs
@@ -128,9 +135,9 @@ def blockWrite (tshape : List Int) (region : Option (List RIdx)) (chunks : List 
       match indexSel tshape widx with
       | .error e => .error e
       | .ok asel =>
-        if bcastOkRev xshape.reverse (selShape asel).reverse then
+        if bcastOk xshape (selShape asel) then
           .ok (fun q => (locate asel q).map (fun j =>
-            src (addPos (index.map (·.1)) (bcastIdxRev xshape.reverse j.reverse).reverse)))
+            src (addPos (index.map (·.1)) (bcastIdx xshape j))))
         else .error .valueError
 
 /-- the store of one (source, target, region) triple with the blocks executed in `order` -/
@@ -190,6 +197,35 @@ def regionSel (tshape : List Int) (region : Option (List RIdx)) : Except Err (Li
 /-- source shape -/
 def srcShape (chunks : List (List Int)) : List Int := chunks.map isum
 
+/-- the accepted form of a region tuple for a target of shape `tshape` and a source with `chunks`
+(the documented contract `target[region].shape == source.shape` for the forms `fuse_slice` accepts):
+one entry per target axis; an integer entry is in range (Python wrap-around allowed); a slice entry has
+non-negative start / stop, positive step, and selects exactly as many positions of its target axis as the
+next source axis is long. -/
+def regionOK : List Int → List RIdx → List (List Int) → Bool
+  | [], [], [] => true
+  | n :: ns, RIdx.int i :: r, cs => decide (-n ≤ i ∧ i < n) && regionOK ns r cs
+  | n :: ns, RIdx.slc s :: r, c :: cs =>
+    decide (0 ≤ n ∧ 0 ≤ s.start.getD 0 ∧ 0 < s.step.getD 1 ∧ 0 ≤ s.stop.getD 0 ∧
+      isum c = ((sel s n).length : Int)) && regionOK ns r cs
+  | _, _, _ => false
+
+/-- accepted call: non-negative chunks; without region (`None` or `()`) the target has the source's
+shape, otherwise the region is accepted. -/
+def accepted (tshape : List Int) (region : Option (List RIdx)) (chunks : List (List Int)) : Bool :=
+  chunks.all (fun c => c.all (fun x => decide (0 ≤ x))) &&
+  match region with
+  | none => decide (tshape = srcShape chunks)
+  | some [] => decide (tshape = srcShape chunks)
+  | some (x :: r) => regionOK tshape (x :: r) chunks
+
+/-- what the store must leave in the target: position `q` of the region's selection `G` holds the source
+value at `q`'s multi-index inside the selection, every other position keeps its old value -/
+def specTarget (G : List AxSel) (src tgt : Pos → Int) : Pos → Int :=
+  fun q => match locate G q with
+    | some g => src g
+    | none => tgt q
+
 /-- all multi-indices of a shape, C order (for printing) -/
 def allPos : List Int → List Pos
   | [] => [[]]
@@ -199,5 +235,11 @@ def allPos : List Int → List Pos
 def ravel : List Int → Pos → Int
   | _ :: ns, q :: qs => q * iprod ns + ravel ns qs
   | _, _ => 0
+
+/-- the first five positions of a 1-d result (`none`: the store raised); for the evaluations in Props -/
+def show5 (r : Except Err (Pos → Int)) : Option (List Int) :=
+  match r with
+  | .ok t => some ([0, 1, 2, 3, 4].map (fun i => t [i]))
+  | .error _ => none
 
 end Dask.StoreND
